@@ -400,7 +400,10 @@ func (m *monitors) afterTx(g genTx, res txResult, cls int, check bool) {
 	}
 	// ... and it DOES move then: a delivered registry transaction (it succeeded, so it passed every pre-execution check)
 	// whose payer held locked eFUND pays min(fee, locked) out of it
-	if fee := g.spec.fee.AmountOf("nund"); isReg && res.Code == 0 && payer >= 0 && payer < len(c.accts) && g.spec.payer.Empty() && g.spec.granter.Empty() &&
+	if fee := g.spec.fee.AmountOf("nund"); isReg && res.Code == 0 && payer >= 0 && payer < len(c.accts) && g.spec.payer.Empty() &&
+		// (with a fee granter the payer itself may be too poor for the "unlock everything" branch: only the branch
+		// locked >= fee is decided without looking at its liquid funds)
+		(g.spec.granter.Empty() || m.lockedBefore[payer].GTE(fee)) &&
 		m.lockedBefore[payer].IsPositive() && fee.IsPositive() {
 		l := c.app.EnterpriseKeeper.GetLockedUndAmountForAccount(ctx, c.addrOf(payer)).Amount
 		want := fee
